@@ -635,7 +635,8 @@ func main() {
 	default:
 		vh.Fatal("unknown mode %s", mode)
 	}
-	vh.RunParallel(len(cases), 0, func(i int) { fn(cases[i], i) }, func(i int, v interface{}, stack string) {
+	base, _ := strconv.Atoi(os.Getenv("VERIF_IDX_BASE")) // replay of a single case: its original index (seeds the concretisation)
+	vh.RunParallel(len(cases), 0, func(i int) { fn(cases[i], base+i) }, func(i int, v interface{}, stack string) {
 		var c interface{}
 		json.Unmarshal(cases[i], &c)
 		w.Put(vh.Result{Idx: i, Sig: mode + "/panic", Detail: fmt.Sprint(v) + "\n" + stack, Case: c})
